@@ -1773,3 +1773,94 @@ func TestT30TruncatedFinalHuffmanBlock(t *testing.T) {
 		}
 	}
 }
+
+// T31 (defect #27): for a truncated stream whose cut falls inside a table entry that packs several short codes,
+// the bytes handed out before io.ErrUnexpectedEOF must not depend on the delivery. Skewed alphabets (1- and 2-bit
+// codes), every cut position, four deliveries; each result must also be a prefix of the data.
+func TestT31TruncatedPackedEntries(t *testing.T) {
+	seeds := 24
+	if v := os.Getenv("T31_SEEDS"); v != "" {
+		fmt.Sscan(v, &seeds)
+	}
+	run := func(src io.Reader, bufsz int) ([]byte, error) {
+		fr := flate.NewReader(src)
+		var got []byte
+		var err error
+		p := make([]byte, bufsz)
+		for err == nil {
+			var k int
+			k, err = fr.Read(p)
+			got = append(got, p[:k]...)
+		}
+		return got, err
+	}
+	fails := 0
+	for sd := 0; sd < seeds && fails < 8; sd++ {
+		r := rand.New(rand.NewSource(int64(sd) + 1))
+		n := 300 + r.Intn(4000)
+		data := make([]byte, n)
+		heavy := 600 + r.Intn(380)
+		for i := range data {
+			switch x := r.Intn(1000); {
+			case x < heavy:
+				data[i] = 'a'
+			case x < heavy+(1000-heavy)*7/10:
+				data[i] = 'b'
+			case x < 995:
+				data[i] = byte('c' + r.Intn(5))
+			default:
+				data[i] = byte(r.Intn(256))
+			}
+		}
+		if sd%3 == 0 { // some long runs, so that matches follow packed literals
+			copy(data[n/2:], bytes.Repeat([]byte("ab"), n/8))
+		}
+		if sd == 0 {
+			// the stream on which the round-14 C04 agent first saw it (cuts 43, 92, 93)
+			rg := rand.New(rand.NewSource(1))
+			rg.Read(make([]byte, 70000))
+			data = make([]byte, 2000)
+			for i := range data {
+				switch x := rg.Intn(1000); {
+				case x < 900:
+					data[i] = 'a'
+				case x < 970:
+					data[i] = 'b'
+				case x < 990:
+					data[i] = byte('c' + rg.Intn(4))
+				default:
+					data[i] = byte(rg.Intn(256))
+				}
+			}
+		}
+		var b bytes.Buffer
+		w, _ := stdflate.NewWriter(&b, []int{9, 6, -2, 1}[sd%4])
+		w.Write(data)
+		w.Close()
+		s := b.Bytes()
+		for cut := 0; cut <= len(s) && fails < 8; cut++ {
+			ref, referr := run(bytes.NewReader(s[:cut]), 1<<16)
+			if !bytes.HasPrefix(data, ref) {
+				fails++
+				t.Errorf("seed %d cut %d: output is not a prefix of the data", sd, cut)
+			}
+			variants := []struct {
+				name string
+				src  io.Reader
+				buf  int
+			}{
+				{"one byte", &fixedChunks{data: s[:cut], size: func() int { return 1 }}, 1 << 16},
+				{"three bytes", &fixedChunks{data: s[:cut], size: func() int { return 3 }}, 7},
+				{"random chunks", &fixedChunks{data: s[:cut], size: func() int { return 1 + r.Intn(40) }}, 1 + r.Intn(300)},
+				{"bufio 16", bufio.NewReaderSize(&fixedChunks{data: s[:cut], size: func() int { return 1 + r.Intn(9) }}, 16), 1 << 12},
+			}
+			for _, v := range variants {
+				got, err := run(v.src, v.buf)
+				if !bytes.Equal(got, ref) || err != referr {
+					fails++
+					t.Errorf("seed %d, %d-byte stream cut at %d, %s: %d bytes err=%v; all at once: %d bytes err=%v", sd, len(s), cut, v.name, len(got), err, len(ref), referr)
+				}
+			}
+		}
+	}
+}
